@@ -392,7 +392,8 @@ def run_solver_tests(ctx):
         n, p = len(s) + 6, len(s) + 2
         X = make_matrix(s, n, p, r)
         Xd = xr.DataArray(X, dims=("sample", "feature"))
-        seed = int(r.integers(0, 2 ** 31))
+        # all integer seeds: the boundary values 0, 1, 2^32 - 1 as well as random ones
+        seed = [0, 1, 2 ** 32 - 1, int(r.integers(0, 2 ** 31))][i % 4]
         d1 = Decomposer(n_modes=k, solver="full")
         d1.fit(Xd)
         d2 = Decomposer(n_modes=k, solver="randomized", random_state=seed)
@@ -410,9 +411,26 @@ def run_solver_tests(ctx):
                           dict(kind="solver", s=s, seed=seed))
         if not (np.array_equal(d2.s_.values, d3.s_.values) and np.array_equal(d2.V_.values, d3.V_.values)
                 and np.array_equal(d2.U_.values, d3.U_.values)):
-            ctx.violation("C15:seed", "equal inputs with equal random_state give different results",
+            ctx.violation("C15:seed", "equal inputs with equal random_state=%d give different results" % seed,
                           dict(kind="seed", s=s, seed=seed))
-    ctx.oblige("test:exact-vs-randomized and seed reproducibility (numpy back-end)", "oracle", n_fail == 0)
+        # the same seed on the complex (scipy svds) and dask (svd_compressed) back-ends
+        try:
+            import dask.array as dsa
+            Xc = xr.DataArray(X + 1j * make_matrix(s, n, p, r), dims=("sample", "feature"))
+            Xk = xr.DataArray(dsa.from_array(X, chunks=(max(2, n // 2), p)), dims=("sample", "feature"))
+            for bname, Xb, kk in (("complex", Xc, min(k, min(n, p) - 1)), ("dask", Xk, k)):
+                outs = []
+                for _ in range(2):
+                    db = Decomposer(n_modes=kk, solver="randomized", random_state=seed)
+                    db.fit(Xb)
+                    outs.append((np.asarray(db.s_.values), np.asarray(db.V_.values)))
+                ctx.case(("seed", bname, i), tag="seed-test:" + bname)
+                if not (np.array_equal(outs[0][0], outs[1][0]) and np.array_equal(outs[0][1], outs[1][1])):
+                    ctx.violation("C15:seed:" + bname, "equal inputs with equal random_state=%d give different results on the %s back-end" % (seed, bname),
+                                  dict(kind="seed", s=s, seed=seed, backend=bname))
+        except NotImplementedError:
+            ctx.dist["seed-test:refused"] += 1
+    ctx.oblige("test:exact-vs-randomized and seed reproducibility (numpy, complex and dask back-ends; seeds 0, 1, 2^32-1 and random)", "oracle", n_fail == 0)
 
 
 def run_kwargs(ctx):
